@@ -7,3 +7,4 @@ import PysamlModel.Props.C01
 #print axioms Sp.processFactory_identity_inv
 #print axioms C01.sigPolicyOk_of_loads_verify
 #print axioms C01.C01_sound_factory
+#print axioms C01.C01_sound_respfactory
